@@ -28,4 +28,13 @@ theorem device_pairs :
          ("xrep", "xreq"), ("xreq", "xrep"), ("xrespondent", "xsurveyor"), ("xstar", "xstar"), ("xsub", "xpub"),
          ("xsurveyor", "xrespondent")] := by decide +kernel
 
+/-- the statement lists of `Device` and `forwarder` are the ones `Model/DevicePlumb.lean` was written against: nil
+    substitution, both-nil, mutual peer protocols, OptionRaw of the first then the second socket, one forwarder per
+    direction (one when both are the same socket); a forwarder moves messages one way until either call fails.  Any
+    edit re-opens the obligation. -/
+theorem device_shapes : Generated.deviceShapes = [
+  (".:.Device", ["if s1==nil", ">s1=s2", "if s2==nil", ">s2=s1", "if s1==nil||s2==nil", ">return ErrClosed", "info1:=s1.Info()", "info2:=s2.Info()", "if (info1.Self!=info2.Peer)||(info2.Self!=info1.Peer)", ">return ErrBadProto", "if val,err:=s1.GetOption(OptionRaw); err!=nil", ">return err", "else", ">if raw,ok:=val.(bool); !ok||!raw", ">>return ErrNotRaw", "if val,err:=s2.GetOption(OptionRaw); err!=nil", ">return err", "else", ">if raw,ok:=val.(bool); !ok||!raw", ">>return ErrNotRaw", "go forwarder(s1,s2)", "if s2!=s1", ">go forwarder(s2,s1)", "return nil"]),
+  (".:.forwarder", ["for", ">m,err:=fromSock.RecvMsg()", ">if err!=nil", ">>return ", ">err=toSock.SendMsg(m)", ">if err!=nil", ">>return "])
+] := by decide
+
 end Obl.Device
